@@ -792,6 +792,11 @@ class Processor:
                                     del parent[key]
                             del parent.merge[midx]
                             break
+                    else:
+                        # No YAML Merge Key references that Anchor here, so
+                        # the reference is an ordinary key of this Hash.
+                        if parentref in parent:
+                            del parent[parentref]
                 elif parentref in parent:
                     del parent[parentref]
             elif isinstance(parent, (CommentedSeq, list)):
